@@ -6,7 +6,8 @@ CONSTANT MaxLen
 Ops == <<"decl-literal", "decl-comp", "copy-b-from-a", "reassign-literal", "reassign-copy", "append-a", "append-b",
          "remove-present", "remove-maybe-absent", "index-first", "index-last-negative", "index-runtime", "len-a", "len-b",
          "pass-to-function", "return-from-function", "string-concat", "string-len",
-         "append-own-first", "append-own-last", "swap-a-b", "swap-in-function", "index-into-other", "append-from-other">>
+         "append-own-first", "append-own-last", "swap-a-b", "swap-in-function", "index-into-other", "append-from-other",
+         "drain-then-append", "drain-then-reassign", "grow-copy-append">>
 Places == <<"setup", "loop", "shared">>
 VARIABLES h, place
 Init == h = <<>> /\ place \in 1..Len(Places)
